@@ -185,15 +185,15 @@ def c17(ctx, api):
 def c10(ctx, api):
     acc = Acc()
     thorough = ctx['tier'] == 'thorough'
-    consts = {'Emit': 'TRUE', 'Prop': '"C10"', 'Triples': tb(thorough),
+    consts = {'Emit': 'TRUE', 'Prop': '"C10"', 'Triples': tb(thorough), 'Quads': '"all"' if thorough else '"rep"',
               'Pool <- ' + ('PoolOpsBig' if thorough else 'PoolOps'): None,
               'NDocs': 1000 if thorough else 343}
     text = cfg(constants={k: v for k, v in consts.items() if v is not None})
     text = text.replace('CONSTANTS\n', 'CONSTANTS\n  Pool <- %s\n' % ('PoolOpsBig' if thorough else 'PoolOps'))
     st, summ = api['run_tlc_to_harness'](ctx, 'ops', 'GenOps', text, timeout=3000)
-    acc.add('GenOps: all ordered pairs of the 18 operator spellings%s x %d documents'
+    acc.add('GenOps: all ordered pairs of the 18 operator spellings%s x %d documents; operator triples (%s) x 256 documents'
             % (' with every unary prefix placement' if thorough else ' (+ every single operator with unary prefixes)',
-               1000 if thorough else 343), st, summ)
+               1000 if thorough else 343, '15^3, one spelling per operator' if thorough else '6^3, one operator per precedence level'), st, summ)
     return acc.result(RULE_PINNED + '; each case also carries the fully parenthesised text, which must give the same result on the real code',
                       extra={'model_checks': ['GroupsByTable', 'UnaryTighterThanBinary', 'ParenNeutral', 'AllParse']})
 
@@ -225,7 +225,7 @@ def c20(ctx, api):
     acc.add('GenEq: all ordered pairs of a 30-value pool x 16 expressions; 15 number spellings pairwise', st, summ)
     if ctx['tier'] == 'thorough':
         # the same relations reached through the operator generator's documents
-        text = cfg(constants={'Emit': 'TRUE', 'Prop': '"C20"', 'Triples': 'FALSE', 'NDocs': 1000})
+        text = cfg(constants={'Emit': 'TRUE', 'Prop': '"C20"', 'Triples': 'FALSE', 'NDocs': 1000, 'Quads': '"none"'})
         text = text.replace('CONSTANTS\n', 'CONSTANTS\n  Pool <- PoolOpsBig\n')
         st, summ = api['run_tlc_to_harness'](ctx, 'ops', 'GenOps', text, timeout=3000)
         acc.add('GenOps operator pairs on 1000 documents (boolean combinations)', st, summ)
